@@ -476,7 +476,10 @@ func vC08NewPipeWith(t *testing.T, w *vC08World, prefetch, minLevel int, tap mid
 	return &vC08Pipe{t: t, w: w, h: h, cm: cm, base: time.Now(), cd: true, tap: tap}
 }
 
-func (p *vC08Pipe) close() { p.cm.Stop() }
+func (p *vC08Pipe) close() {
+	p.cm.Stop()
+	p.h.Stop()
+}
 
 // now is the virtual instant (ns since the pipeline was built).
 func (p *vC08Pipe) now() int64 { return int64(time.Since(p.base) + p.adv) }
